@@ -398,6 +398,11 @@ package fiber
 //@   ensures [C06] immutable-installs-copying-conversions: result.config.Immutable ==> copies(result.getString) && copies(result.getBytes) && result.getString == getStringImmutable && result.getBytes == getBytesImmutable
 //@   ensures [C06] zero-copy-otherwise: !result.config.Immutable ==> result.getString == utils.UnsafeString && result.getBytes == utils.UnsafeBytes
 //@   ensures [C06] only-the-two-conversions: (result.getString == utils.UnsafeString || result.getString == getStringImmutable) && (result.getBytes == utils.UnsafeBytes || result.getBytes == getBytesImmutable)
+//@   ensures [C10] trust-settings-are-the-callers: len(config) > 0 ==> result.config.TrustProxy == old(config[0].TrustProxy) && result.config.ProxyHeader == old(config[0].ProxyHeader) && result.config.EnableIPValidation == old(config[0].EnableIPValidation) &&
+//@ ..    result.config.TrustProxyConfig.Proxies == old(config[0].TrustProxyConfig.Proxies) && result.config.TrustProxyConfig.Loopback == old(config[0].TrustProxyConfig.Loopback) &&
+//@ ..    result.config.TrustProxyConfig.LinkLocal == old(config[0].TrustProxyConfig.LinkLocal) && result.config.TrustProxyConfig.Private == old(config[0].TrustProxyConfig.Private)
+//@   ensures [C10] no-trust-without-config: len(config) == 0 ==> !result.config.TrustProxy && result.config.ProxyHeader == "" && len(result.config.TrustProxyConfig.Proxies) == 0 && !result.config.TrustProxyConfig.Loopback && !result.config.TrustProxyConfig.LinkLocal && !result.config.TrustProxyConfig.Private
+//@   ensures [C06] immutable-flag-is-the-callers: (len(config) > 0 ==> result.config.Immutable == old(config[0].Immutable)) && (len(config) == 0 ==> !result.config.Immutable)
 //@   ensures [C08] configured-handler-is-the-callers: len(config) > 0 ==> result.configured.ErrorHandler == old(config[0].ErrorHandler)
 //@   ensures [C08] none-configured-without-config: len(config) == 0 ==> result.configured.ErrorHandler == nil
 //@   ensures [C08] effective-handler-is-configured-or-default: result.config.ErrorHandler == ite(result.configured.ErrorHandler != nil, result.configured.ErrorHandler, DefaultErrorHandler)
